@@ -16,9 +16,10 @@ def LOOP(k, header, kw, body):
 
 UNIT = Unit(
     name="U-LOADPKG",
-    properties=["C16", "C13"],
+    properties=["C16", "C13", "C12"],
     # read_gom_sources' sortedness is C13's clause; load_package's one-package clause is C16's
-    clause_scope={"C13": {"only": ["paths_sorted(", "entry_once("]}, "C16": {"except": ["paths_sorted(", "entry_once("]}},
+    clause_scope={"C13": {"only": ["paths_sorted(", "entry_once("]}, "C12": {"only": ["no_foreign_positions(", "is Compile"]},
+                  "C16": {"except": ["paths_sorted(", "entry_once(", "no_foreign_positions(", "is Compile"]}},
     rules=["attrs", "fmtmsg", "msg_to_string", "ok_or_else_q", "let_chain", "let_chain_rev", "opt_map", "opt_is_some_and"],
     describe="packages::load_package and separate::read_source_files: a package unit is ONE package — every file loaded into it (the entry file and every other .gom file of "
              "the directory) declares the unit's own package name; a file declaring another package is an error, never silently merged "
@@ -29,7 +30,16 @@ UNIT = Unit(
              "parse_ast_file is desugared to an early `return Err(..)`; `entry_path.is_some_and(|entry| entry == path)` is an opaque boolean"],
     items=[
         Adt(file=P, kw="struct", name="PackageUnit", rules=["attrs"]),
+        Raw(text="#[verifier::external_body] pub struct Diagnostics { _p: u64 }\n"),
+        Adt(file="crates/compiler/src/pipeline/pipeline.rs", kw="enum", name="CompilationError", rules=["attrs"]),
         Raw(path="contracts/loadpkg.shim.rs"),
+        Fn(file="crates/compiler/src/pipeline/pipeline.rs", name="parse_package_file", ret="r", optional=True,
+           rules=["attrs", "map_err_plain"],
+           pre_rewrites=[(re.compile(r"compile_error\(\s*parser::format_parser_diagnostics\(&diagnostics, src\).*?\.join\(\"\\n\"\),\s*\)", re.S), "compile_error(rt_msg())", 1)],
+           rewrites=[("path: &Path", "path: &PathBuf"), ("src: &str", "src: &String"), ("Result<ast::File, CompilationError>", "Result<AstFile, CompilationError>")],
+           obligation="parsing a non-entry file never hands a Parser error (offsets into THAT file's text) to the caller: the positions are resolved against "
+                      "the file itself and the error becomes a range-less message",
+           contract="ensures no_foreign_positions(r),"),
         Fn(file=P, name="read_gom_sources", ret="r",
            obligation="the list of a package's source files is returned SORTED: its order is a function of the file names, not of the order in which the "
                       "operating system enumerates the directory (that order fixes the order of everything compiled from the package)",
@@ -42,7 +52,7 @@ UNIT = Unit(
            ],
            rewrites=[("dir: &Path", "dir: &PathBuf"), ("let mut files = Vec::new();", "let mut files: Vec<PathBuf> = Vec::new();")],
            attrs="#[verifier::exec_allows_no_decreases_clause]",
-           contract="ensures r matches Ok(v) ==> paths_sorted(v@),",
+           contract="ensures r matches Ok(v) ==> paths_sorted(v@),\n        r matches Err(e) ==> e is Compile,",
            loop_fn=lambda k, header, kw, body: "invariant true,"),
         Fn(file=P, name="load_package", ret="r",
            obligation="every file of the returned unit declares the unit's package name, and that name is not the reserved `Builtin` (whose items "
@@ -52,7 +62,7 @@ UNIT = Unit(
                 "let mut __pv = match read_gom_sources(package_dir) { Ok(v) => v, Err(e) => { return Err(e); } }; while __pv.len() > 0 { let path = __pv.remove(0);"),
                (re.compile(r"let src = fs::read_to_string\(&path\)\s*\.map_err\(\|err\| compile_error\(format!\([^;]*?\)\)\)\?;", re.S),
                 "let src = match fs_read_to_string(&path) { Ok(v) => v, Err(e) => { return Err(e); } };", 1),
-               ("let ast = parse_ast_file(&path, &src)?;", "let ast = match parse_ast_file(&path, &src) { Ok(v) => v, Err(e) => { return Err(e); } };"),
+               (re.compile(r"let ast = (parse_\w+)\(&path, &src\)\?;"), r"let ast = match \1(&path, &src) { Ok(v) => v, Err(e) => { return Err(e); } };", 1),
                (re.compile(r"\bentry\.file_name\(\) == path\.file_name\(\)"), "same_file_name(entry, &path)", "*"),
                (re.compile(r"\|entry\| entry == path\b"), "|entry| path_eq(entry, &path)", "*"),
            ],
@@ -63,7 +73,8 @@ UNIT = Unit(
                      (re.compile(r'\b(\w+) == "Builtin"'), r'str_eq_lit(&\1, "Builtin")', "*"),
                      (re.compile(r"\b((?:\w+\.)*)ast\.package\.0\.clone\(\)"), r"string_clone(&\1ast.package.0)", "*")],
            contract="ensures r matches Ok(u) ==> one_package(u),\n        r matches Ok(u) ==> !reserved_package_name(u.name@),\n"
-                    "        r matches Ok(u) ==> entry_once(u.files@, if entry_ast is Some { 1int } else { 0int }, entry_path),",
+                    "        r matches Ok(u) ==> entry_once(u.files@, if entry_ast is Some { 1int } else { 0int }, entry_path),\n"
+                    "        no_foreign_positions(r),",
            ghost=[("@entry", "", "let ghost entry_ast0 = entry_ast;"),
                   ("let mut __pv = match read_gom_sources(package_dir)", "line-before", "let ghost n0 = files@.len() as int;")],
            loop_fn=LOOP),
@@ -75,7 +86,7 @@ UNIT = Unit(
                (re.compile(r"let mut paths = input_files\.to_vec\(\);\s*paths\.sort\(\);\s*paths\.dedup\(\);"), "let paths = sorted_dedup_paths(input_files);", 1),
                (re.compile(r"let src = fs::read_to_string\(&path\)\s*\.map_err\(\|err\| compile_error\(format!\([^;]*?\)\)\)\?;", re.S),
                 "let src = match fs_read_to_string(&path) { Ok(v) => v, Err(e) => { return Err(e); } };", 1),
-               ("let ast = parse_ast_file(&path, &src)?;", "let ast = match parse_ast_file(&path, &src) { Ok(v) => v, Err(e) => { return Err(e); } };"),
+               (re.compile(r"let ast = (parse_\w+)\(&path, &src\)\?;"), r"let ast = match \1(&path, &src) { Ok(v) => v, Err(e) => { return Err(e); } };", 1),
                (re.compile(r"for import in ast\.imports\.iter\(\) \{\s*imports\.insert\(import\.0\.clone\(\)\);\s*\}"), "import_set_add(&mut imports, &ast);", 1),
            ],
            rewrites=[("input_files: &[PathBuf]", "input_files: &Vec<PathBuf>"), ("input_files.is_empty()", "input_files.len() == 0"),
@@ -86,7 +97,7 @@ UNIT = Unit(
                      (re.compile(r"\bast\.package\.0 != package\b"), "str_ne_string(&ast.package.0, package)", "*"),
                      (re.compile(r'\b(\w+) == "Builtin"'), r'strs_eq(\1, "Builtin")', "*")],
            contract="ensures r matches Ok(t) ==> forall|i: int| 0 <= i < t.0@.len() ==> (#[trigger] t.0@[i]).ast.package.0@ == package@,\n"
-                    "        r is Ok ==> !reserved_package_name(package@),",
+                    "        r is Ok ==> !reserved_package_name(package@),\n        no_foreign_positions(r),",
            loop_fn=lambda k, header, kw, body: ("invariant forall|i: int| 0 <= i < files@.len() ==> (#[trigger] files@[i]).ast.package.0@ == package@,\ndecreases __iv0@.len(),")),
     ],
 )
